@@ -53,7 +53,11 @@ pub fn gen_loc(rng: &mut Rng) -> LocSpec {
             let mut t = BTreeMap::new();
             let plain = rng.chance(1, 3);
             // messages are rarely ASCII only
-            let deco = *rng.pick(&["", "", " – später nochmal", " 服务器不可用", " ✔"]);
+            let mut deco = (*rng.pick(&["", "", " – später nochmal", " 服务器不可用", " ✔"])).to_string();
+            // a long message (rules, links, ASCII art): the Disconnect frame then needs a three-byte length prefix
+            if rng.chance(1, 10) {
+                deco.push_str(&" read the rules".repeat(*rng.pick(&[1093usize, 1400, 2200])));
+            }
             for mk in ["disconnect_no_target", "disconnect_timeout"] {
                 if rng.chance(9, 10) {
                     t.insert(
@@ -131,6 +135,7 @@ fn generate(rng: &mut Rng) -> ConnScenario {
         client,
         wplan: vec![],
         cap_ns: secs(900),
+        prelude: vec![],
     };
     zero_time_noise(rng, &mut sc);
     sc
